@@ -6,25 +6,40 @@ import argparse, glob, json, os, subprocess, sys, time
 VERIF = os.path.dirname(os.path.dirname(os.path.abspath(__file__)))
 ap = argparse.ArgumentParser()
 ap.add_argument("--checks", default=None)
+ap.add_argument("--lane", default=None, help="apply the patch to a pristine private copy of /repo's HEAD (SEED_REPO) instead of /repo itself; results replace meta['checks']")
 ap.add_argument("dirs", nargs="*")
 a = ap.parse_args()
 dirs = a.dirs or sorted(glob.glob(os.path.join(VERIF, "seeded", "*")))
-if subprocess.run("git status --porcelain", shell=True, cwd="/repo", capture_output=True, text=True).stdout.strip():
+if not a.lane and subprocess.run("git status --porcelain", shell=True, cwd="/repo", capture_output=True, text=True).stdout.strip():
     print("REFUSING: /repo not clean"); sys.exit(2)
 for d in dirs:
     meta = json.load(open(os.path.join(d, "meta.json")))
     checks = (a.checks or meta["property"]).split(",")
-    r = subprocess.run(["git", "apply", os.path.join(d, "patch.diff")], cwd="/repo", capture_output=True, text=True)
+    target = "/repo"
+    cenv = dict(os.environ)
+    if a.lane:
+        target = f"/var/tmp/lane-{a.lane}/repo"
+        os.makedirs(target, exist_ok=True)
+        subprocess.run(f"find {target} -mindepth 1 -maxdepth 1 ! -name target -exec rm -rf {{}} + ; git -C /repo archive HEAD | tar -x -C {target}", shell=True)
+        cenv["SEED_REPO"] = target
+        cenv["SEED_VERIF_SCRATCH"] = f"/var/tmp/lane-{a.lane}/scratch"
+        cenv.setdefault("SEED_VERIF_JOBS", "6")
+    r = subprocess.run(["git", "apply", os.path.join(d, "patch.diff")], cwd=target, capture_output=True, text=True)
     if r.returncode != 0:
         print(os.path.basename(d), "patch no longer applies"); continue
     try:
-        det = meta.setdefault("detection", {})
+        if a.lane:
+            meta.pop("detection", None)
+            meta["what_i_ran"] = ("confirmed earlier in the sub-agent's scratch worktree (applies, builds, 339 tests pass, demo differs); this run: patch applied to a pristine "
+                                  "copy of /repo's HEAD handed to the checks as SEED_REPO; ./check <ids> --tier quick")
+        det = meta.setdefault("checks" if a.lane else "detection", {})
         for c in checks:
             t0 = time.time()
-            p = subprocess.run([os.path.join(VERIF, "check"), c, "--tier", "quick"], cwd=VERIF, capture_output=True, text=True)
+            p = subprocess.run([os.path.join(VERIF, "check"), c, "--tier", "quick"], cwd=VERIF, capture_output=True, text=True, env=cenv)
             lines = [l for l in p.stdout.splitlines() if l.startswith(("VIOLATION", "OK"))]
             det[c] = {"exit": p.returncode, "lines": [l[:400] for l in lines][:6], "undecided": [l[:300] for l in p.stderr.splitlines() if l.startswith("UNDECIDED")][:3], "wall_s": round(time.time() - t0, 1)}
             print(os.path.basename(d), c, {0: "MISSED", 1: "DETECTED", 2: "UNDECIDED"}.get(p.returncode, p.returncode))
     finally:
-        subprocess.run("git checkout -- .", shell=True, cwd="/repo")
+        if not a.lane:
+            subprocess.run("git checkout -- .", shell=True, cwd="/repo")
     json.dump(meta, open(os.path.join(d, "meta.json"), "w"), indent=1)
